@@ -11,8 +11,8 @@ from gens.spelling import spell
 from ref import b64 as rb, jws as rjws, keys as rk
 
 SERS = ("compact", "flattened", "general")
-KEYMODES = ("key", "keyset_kid", "keyset_nokid", "callable_key", "callable_keyset", "callable_keyset_nokid")
-NOKID_MODES = ("keyset_nokid", "callable_keyset_nokid")
+KEYMODES = ("key", "keyset_kid", "keyset_nokid", "callable_key", "callable_keyset", "callable_keyset_nokid", "keyset_single")
+NOKID_MODES = ("keyset_nokid", "callable_keyset_nokid", "keyset_single")
 
 _urlsafe = st.text(alphabet="abcXYZ019-_~", min_size=1, max_size=20).map(str.encode)
 payload_any = st.one_of(
